@@ -96,6 +96,43 @@ let handle kind a =
                else deflate_dynamic (nats a.(0)) (nats a.(1)) (nats a.(2)) ts in
       let frame = frame_bytes cd (crc32 x) (n_of_int (List.length x)) in
       Some (hex_of_bytes cd ^ "|" ^ fmt_read (reader_read_to_end inflate (frame @ eof_block)))
+  | "ms" ->
+      (* a multi-block DEFLATE stream given block by block (s<hex> stored | f<tokens> fixed |
+         d<nlen>;<ndist>;<clvals>;<items>;<tokens> dynamic with HCLEN = |clvals| - 4 and the code
+         lengths run-length coded by items l<len> c<n> (16) z<n> (17) y<n> (18)): the model's
+         encoder deflate_blocks, and the reader model on a frame around its output *)
+      let parse_tokens s = if s = "-" then [] else List.map (fun t ->
+        let rest = String.sub t 1 (String.length t - 1) in
+        match t.[0] with
+        | 'l' -> TLit (n_of_int (int_of_string rest))
+        | 'm' -> (match split_on ':' rest with
+                  | [l; d] -> TMatch (n_of_int (int_of_string l), n_of_int (int_of_string d))
+                  | _ -> failwith "token")
+        | _ -> failwith "token") (split_on ',' s) in
+      let nats s = if s = "-" then [] else List.map (fun x -> nat_of_int (int_of_string x)) (split_on ',' s) in
+      let parse_item t =
+        let n = nat_of_int (int_of_string (String.sub t 1 (String.length t - 1))) in
+        match t.[0] with
+        | 'l' -> CLen n | 'c' -> CRep16 n | 'z' -> CRep17 n | 'y' -> CRep18 n
+        | _ -> failwith "item" in
+      let parse_block b =
+        let rest = String.sub b 1 (String.length b - 1) in
+        match b.[0] with
+        | 's' -> BStored ([], bytes_of_hex rest)
+        | 'f' -> BFixed (parse_tokens rest)
+        | 'd' -> (match split_on ';' rest with
+                  | [nl; nd; cv; its; ts] ->
+                      BDynamic ({ dh_nlen = nat_of_int (int_of_string nl); dh_ndist = nat_of_int (int_of_string nd);
+                                  dh_clvals = nats cv;
+                                  dh_items = (if its = "-" then [] else List.map parse_item (split_on ',' its)) },
+                                parse_tokens ts)
+                  | _ -> failwith "dyn")
+        | _ -> failwith "block" in
+      let bs = List.map parse_block (Array.to_list a) in
+      let x = stream_out bs [] in
+      let cd = deflate_blocks bs in
+      let frame = frame_bytes cd (crc32 x) (n_of_int (List.length x)) in
+      Some (hex_of_bytes cd ^ "|" ^ fmt_read (reader_read_to_end inflate (frame @ eof_block)))
   | "inf" ->
       (* the inflater alone: cdata, limit *)
       (match inflate_raw (n_of_int (int_of_string a.(1))) (bytes_of_hex a.(0)) with
